@@ -9,7 +9,7 @@ meta = json.load(open(os.path.join(src, "meta.json")))
 wt = f"/tmp/wt/confirm.{os.getpid()}"
 env = dict(os.environ, GOFLAGS="-mod=mod", GOPROXY="off", GOSUMDB="off", GOTOOLCHAIN="local")
 def sh(cmd, cwd=wt):
-    p = subprocess.run(cmd, shell=True, cwd=cwd, env=env, capture_output=True, text=True)
+    p = subprocess.run(cmd, shell=True, cwd=cwd, env=env, capture_output=True, text=True, errors="replace")
     return p.returncode, (p.stdout + p.stderr)[-1500:]
 subprocess.check_call(["git", "-C", "/repo", "worktree", "add", "-q", "--detach", wt, "HEAD"])
 ran = {}
@@ -17,7 +17,7 @@ try:
     demo_src = os.path.join(src, meta["demo_file"])
     demo_dst = os.path.join(wt, meta["demo_dest"])
     import re
-    cmd = re.sub(r"/tmp/wt/(R[23])?%s(?![.\w])" % meta["property"], wt, meta["demo_cmd"])
+    cmd = re.sub(r"/tmp/wt/(R[234])?%s(?![.\w])" % meta["property"], wt, meta["demo_cmd"])
     os.makedirs(os.path.dirname(demo_dst), exist_ok=True)
     shutil.copy(demo_src, demo_dst)
     rc, out = sh(cmd); ran["demo_clean"] = {"cmd": cmd, "rc": rc}
@@ -32,6 +32,7 @@ try:
         rc, out = sh(f"python3 /verif/tools/suite.py {wt}")  # retry once (port clashes with parallel suites)
         ran["suite_with_patch"] = {"rc": rc, "tail": out.strip().splitlines()[0] if out.strip() else "", "retried": True}
     if rc != 0: print("REJECT: suite fails with patch\n", out); sys.exit(1)
+    os.makedirs(os.path.dirname(demo_dst), exist_ok=True)  # a demo may remove its own scratch directory
     shutil.copy(demo_src, demo_dst)
     rc, out = sh(cmd); ran["demo_patched"] = {"cmd": cmd, "rc": rc, "tail": out[-600:]}
     if rc == 0: print("REJECT: demo passes with patch"); sys.exit(1)
